@@ -201,7 +201,7 @@ func accAlloc(k *chain.Keys, m int) chain.GenesisAlloc {
 
 func unionMenu(w *chain.World) []chain.Action {
 	return []chain.Action{
-		chain.V1Pay(true, 2), chain.V1Chain(), chain.V1SF(true), chain.V1SFChain(), chain.V1Form(1, 2, 100), chain.V1Form(0, 1, 10), chain.V1Revise("pay"), chain.V1Revise("grow"), chain.V1Proof(false), chain.V1Proof(true),
+		chain.V1Pay(true, 2), chain.V1Chain(), chain.V1SF(true), chain.V1SFChain(), chain.V1Form(1, 2, 100), chain.V1Form(0, 1, 10), chain.V1Revise("pay"), chain.V1Revise("grow"), chain.V1Proof(false), chain.V1ProofFee(), chain.V1Proof(true),
 		chain.V2Pay(chain.AddrV2, true, 2), chain.V2Chain(chain.AddrACS), chain.V2SF(true), chain.V2Form(1, 2, 100), chain.V2Form(0, 1, 10),
 		chain.V2Revise("pay"), chain.V2Revise("grow"), chain.V2Renew("partial"), chain.V2Proof(), chain.V2Expire(), chain.V2Attest(),
 		// several MidState code paths for ONE element inside a block (the leaf that revert restores / apply writes)
@@ -241,6 +241,17 @@ func run(c *vf.Ctx) {
 					d = 1 // thin out the follow-up blocks for large trees (first-level triple still enumerated)
 				}
 				runCase(c, base, accCase{M: m, S: s, Outs: outs, Seed: c.Seed}, d)
+				// the same leaves touched in DESCENDING order (inputs listed from the highest leaf down): what an update
+				// reports must not depend on the order in which a block touches its leaves (growth 0 and 3, first level only)
+				if len(s) >= 2 && (outs == 0 || outs == 3) && (len(s) <= 3 || !c.Quick()) {
+					rev := make([]int, len(s))
+					for i := range s {
+						rev[i] = s[len(s)-1-i]
+					}
+					c.Distinct(m, fmt.Sprint(rev), outs)
+					c.Count("descending_order_cases", 1)
+					runCase(c, base, accCase{M: m, S: rev, Outs: outs, Seed: c.Seed}, 1)
+				}
 			}
 		}
 		c.Count("traces_validated_against_impl", 1)
@@ -323,7 +334,7 @@ func run(c *vf.Ctx) {
 		}
 	}
 	c.Sample(accCase{M: 12, S: []int{3, 11}, Outs: 5, S2: []int{14, 15}, Outs2: 3, Seed: c.Seed, Stage: "example"})
-	c.RequireFeature("reverts", "proofs_checked", "feature:v1_fc_revise", "feature:v2_fc_revise", "feature:v2_attestation", "feature:v1_fc_expire", "feature:revert_depth_2")
+	c.RequireFeature("descending_order_cases", "reverts", "proofs_checked", "feature:v1_fc_revise", "feature:v2_fc_revise", "feature:v2_attestation", "feature:v1_fc_expire", "feature:revert_depth_2")
 	c.Assume("leaf POSITIONS are taken from what the implementation reports (range- and uniqueness-checked); leaf HASHES and every interior node come from the independent reference only")
 }
 
